@@ -8,7 +8,8 @@ EDGES = ["MC_core_quick.cfg", "MC_core_l1.cfg", "MC_core_w1.cfg", "MC_cmd_quick.
 THOROUGH = ["MC_core_w3.cfg", "MC_core_l3.cfg", "MC_core_l4.cfg", "MC_core_w3l3.cfg", "MC_core_w3c7.cfg", "MC_core_l4c9.cfg", "MC_core_w3l3c7.cfg", "MC_cmd_w2.cfg"]
 NEGS = {"NEG_WakeAtLimit.cfg": ["C03_NoLostWake"], "NEG_WakeAtLimit_l2.cfg": ["C03_NoLostWake"],
         "NEG_WakeAtLimit_w2.cfg": ["C03_NoLostWake"], "NEG_WakeSkipsAcceptAll.cfg": ["C03_NoLostWake"],
-        "NEG_BackoffNeverReregisters.cfg": ["C03_NoLostWake"]}
+        "NEG_BackoffNeverReregisters.cfg": ["C03_NoLostWake"],
+        "NEG_ResetSeparate.cfg": ["C03_NoLostWake", "C04_BitsTrueWhenCalm"]}
 
 
 def nontrivial(s, run):
